@@ -44,8 +44,10 @@ func newClientWorld(n int) *clientWorld {
 	for i := 0; i < n; i++ {
 		w.roots = append(w.roots, rootN(i))
 	}
+	// the contract may have more capacity than data (sectors were freed before)
+	slack := uint64(vapi.Int("capacity-slack-sectors", 0, 1))
 	fc := types.V2FileContract{
-		Capacity:         uint64(n) * proto4.SectorSize,
+		Capacity:         (uint64(n) + slack) * proto4.SectorSize,
 		Filesize:         uint64(n) * proto4.SectorSize,
 		FileMerkleRoot:   proto4.MetaRoot(w.roots),
 		ProofHeight:      100,
@@ -126,9 +128,13 @@ func (w *clientWorld) checkClientRevision(tag string, got, want types.V2FileCont
 
 // VerifH_C10_roots: RPCSectorRoots against a host that corrupts one thing.
 //
-//verif:harness prop=C10 tier=quick replay=native go=skip require=ok,rejected bounds="contract of 1..4 sectors; any valid (offset,length); corruption of one root / one proof node / root count (+1,-1) / host signature (forged, or genuine over a dearer revision)"
+//verif:harness prop=C10 tier=quick replay=native go=skip require=ok,rejected bounds="contract of 0..4 sectors (capacity equal to or one sector above the data); any valid (offset,length), for the empty contract any request; corruption of one root / one proof node / root count (+1,-1) / host signature (forged, or genuine over a dearer revision)"
 func VerifH_C10_roots() {
-	n := vapi.Int("sectors", 1, 4)
+	n := vapi.Int("sectors", 0, 4)
+	if n == 0 {
+		verifRootsEmptyContract()
+		return
+	}
 	w := newClientWorld(n)
 	off := uint64(vapi.Int("offset", 0, n-1))
 	length := uint64(vapi.Int("length", 1, n-int(off)))
@@ -191,7 +197,7 @@ func VerifH_C10_roots() {
 
 // VerifH_C10_append: RPCAppendSectors against a corrupting host.
 //
-//verif:harness prop=C10 tier=quick replay=native go=skip require=ok,rejected bounds="contract of 0..3 sectors; 1..2 appended roots each accepted or not; corruption of the new Merkle root / a subtree root / the accepted count / the host signature (forged, over a dearer revision, or made by a peer that is not the contract's host)"
+//verif:harness prop=C10,C09 tier=quick replay=native go=skip require=ok,rejected bounds="contract of 0..3 sectors (capacity equal to or one sector above the data); 1..2 appended roots each accepted or not; corruption of the new Merkle root / a subtree root / the accepted count / the host signature (forged, over a dearer revision, or made by a peer that is not the contract's host)"
 func VerifH_C10_append() {
 	n := vapi.Int("sectors", 0, 3)
 	w := newClientWorld(n)
@@ -471,4 +477,30 @@ func VerifH_C10_replenish() {
 	vapi.Assert("replenish.signature-bound", sigSel == 0)
 	rev, wantUsage, _ := proto4.ReviseForReplenish(w.contract.Revision, sum)
 	w.checkClientRevision("replenish", res.Revision, rev, res.Usage, wantUsage)
+}
+
+// verifRootsEmptyContract: a contract without sectors has no roots to serve:
+// whatever the host answers (core's proof verifier accepts an empty proof for
+// an empty tree without looking at the roots), the call must not succeed.
+func verifRootsEmptyContract() {
+	w := newClientWorld(0)
+	length := uint64(vapi.Int("length", 1, 2))
+	w.t.conn.respond = func(c *scriptConn) []byte {
+		if c.round > 0 {
+			return nil
+		}
+		resp := proto4.RPCSectorRootsResponse{}
+		for k := uint64(0); k < length; k++ {
+			resp.Roots = append(resp.Roots, types.Hash256(vapi.Bytes32("made-up-root")))
+		}
+		rev, _, err := proto4.ReviseForSectorRoots(w.contract.Revision, w.prices, length)
+		if err != nil {
+			return nil
+		}
+		resp.HostSignature = w.hostSig(rev, 0)
+		return encResp(&resp)
+	}
+	_, err := rhp4.RPCSectorRoots(context.Background(), w.t, w.cs, w.prices, w.renterKey, w.contract, 0, length)
+	vapi.Assert("roots.empty-contract-serves-nothing", err != nil)
+	vapi.Reach("rejected")
 }
